@@ -223,6 +223,25 @@ def install(lib):
     C = lib.contracts
 
     # ---- Node.__init__
+    def edges_recorded(nm):
+        def none_same(c):
+            a = c.args[nm]
+            return c.new.f[nm].isnone == (z3.BoolVal(True) if isinstance(a, V.VNone) else a.isnone)
+
+        def elems_same(k):
+            def cl(c):
+                a = c.args[nm]
+                if isinstance(a, V.VNone):
+                    return z3.BoolVal(True)
+                n = c.new.f[nm].val
+                if k == 0:
+                    return z3.Implies(z3.Not(a.isnone), n.len == a.val.len)
+                return logic.Forall(1, lambda i: z3.Implies(z3.And(z3.Not(a.isnone), 0 <= i, i < a.val.len),
+                                                            V.eq(n.at(i), a.val.at(i))), [a.val.len], nm + "-same")
+            return cl
+        return [Clause(nm + "-recorded-as-given.none", none_same, ("C20",)),
+                Clause(nm + "-recorded-as-given.len", elems_same(0), ("C20",)),
+                Clause(nm + "-recorded-as-given", elems_same(1), ("C20",))]
     def node_init_ok(c):
         return z3.And(c.args["id"].tag == V.T_STR, c.args["node_setup_time"].is_num())
     C["Node"]["__init__"] = FnContract(
@@ -233,7 +252,8 @@ def install(lib):
                       "setup-time-not-a-number", unchanged=False, props=("C20",))],
         normal_requires=node_init_ok,
         post=lambda c: [Clause("setup-time-recorded", lambda c: V.eq(V.dyn_of(c.new.f["node_setup_time"]),
-                                                                  c.args["node_setup_time"]), ("C20",))],
+                                                                  c.args["node_setup_time"]), ("C20",))] + [
+            x for nm in ("in_edges", "out_edges") for x in edges_recorded(nm)],
         modifies=("id", "node_setup_time", "in_edges", "out_edges"),
         uses_inv=False, keeps_inv=False, is_init=True, props=("C20",))
     C["Node"]["__init__"].no_frame = True
